@@ -202,7 +202,7 @@ def run_batch(items):
     bad = results[k]
     ops = [h for h in hist if h[0][0] != 'EndPhase']
 
-    def body(state):
+    def body(state, **_kw):
       api = state.test_api
       ps = state.running_phase_state
       for op, exc, obs in ops:
@@ -277,7 +277,11 @@ def run_batch(items):
     if t:
       me.with_transform(t)
     ph = htf.PhaseOptions(name='h%d' % k, requires_state=True)(body)
-    return htf.measures(ms, md, me)(ph)
+    ph = htf.measures(ms, md, me)(ph)
+    if k % 2:
+      # a derived phase keeps every attached validator ("every attached validator accepts ...")
+      ph = ph.with_args(label='l%d' % k)
+    return ph
 
   for k, (c, hist, fam) in enumerate(items):
     phases.append(make(k, c, hist, fam))
